@@ -62,6 +62,15 @@ class ChunkedRaw(io.RawIOBase):
         return len(chunk)
 
 
+class LostLink(ChunkedRaw):
+    """A non-seekable source whose producer is lost: when the delivered bytes are used up the read does not return EOF, it RAISES (reset, timeout)."""
+
+    def readinto(self, b):
+        if self.pos >= len(self.data):
+            raise ConnectionResetError("connection reset by peer")
+        return super().readinto(b)
+
+
 def seekable_sources(data: bytes, workdir: str):
     """Buffered seekable sources as the documented input contract allows them: [(name, opener)].
     The stream may start at a non-zero offset of the underlying file, the buffer may be tiny, the data may straddle the
